@@ -5,6 +5,7 @@ import (
 	"context"
 	"encoding/json"
 	"fmt"
+	"io"
 	"net/http"
 	"path"
 	"strings"
@@ -38,6 +39,13 @@ type World struct {
 	Names   *simkit.Namer
 	Pubs    []*PubNode
 	treeSeq int
+	// GeneralHook: subscribers made from here on get their block hook from
+	// dagsync.MakeGeneralBlockHook (a function from an advertisement's CID to
+	// its predecessor's, or an error) instead of a hook of their own.
+	GeneralHook bool
+	// SplitByHint: subscribers made from here on read entry blocks only
+	// when the read carries the entries schema hint (see NewSubscriberOn).
+	SplitByHint bool
 	// TrustedStore: subscribers made from here on mark their link system's
 	// storage as trusted.
 	TrustedStore bool
@@ -82,6 +90,9 @@ type PubOpts struct {
 	// LongDigest: Proto asks for a digest longer than the registered
 	// fixed-size hasher of its function produces (see storeNode).
 	LongDigest bool
+	// LongDigestFor, if set, says which advertisements (by chain index, with
+	// their entries) have such CIDs; the others have ordinary ones.
+	LongDigestFor func(ad int) bool
 }
 
 // PubNode is a publisher: real ipnisync.Publisher behind simulated servers.
@@ -223,7 +234,7 @@ func (p *PubNode) appendAd() cid.Cid {
 			ch.Entries = append(ch.Entries, mh)
 		}
 		n := must(ch.ToNode())
-		l := p.storeNode(n)
+		l := p.storeNode(n, i)
 		next = l
 		c := l.(cidlink.Link).Cid
 		ents = append([]cid.Cid{c}, ents...)
@@ -269,7 +280,7 @@ func (p *PubNode) appendAd() cid.Cid {
 		}
 	}
 	n := must(ad.ToNode())
-	l := p.storeNode(n)
+	l := p.storeNode(n, i)
 	c := l.(cidlink.Link).Cid
 	p.W.Names.Set(c.String(), fmt.Sprintf("%s.ad%d", p.Name, i))
 	p.Ads = append(p.Ads, c)
@@ -282,7 +293,11 @@ func (p *PubNode) appendAd() cid.Cid {
 // extendable-output function asked for more) cannot go through the link
 // system, whose hasher is the fixed-size one: the block is encoded and hashed
 // here and put into the store directly.
-func (p *PubNode) storeNode(n ipld.Node) ipld.Link {
+func (p *PubNode) storeNode(n ipld.Node, ad int) ipld.Link {
+	if p.Opts.LongDigest && p.Opts.LongDigestFor != nil && !p.Opts.LongDigestFor(ad) {
+		// this advertisement has an ordinary CID
+		return must(p.LS.Store(ipld.LinkContext{}, schema.Linkproto, n))
+	}
 	if p.Opts.LongDigest {
 		var b bytes.Buffer
 		if err := dagjson.Encode(n, &b); err != nil {
@@ -374,7 +389,37 @@ func (w *World) NewSubscriberOn(h host.Host, opts ...dagsync.Option) *SubNode {
 	// is not hashed again): what comes from a publisher is checked all the
 	// same
 	s.LS.TrustedStorage = w.TrustedStore
-	all := append([]dagsync.Option{dagsync.BlockHook(s.blockHook)}, opts...)
+	// an application that keeps advertisements and entry blocks in separate
+	// tables and picks the table by the schema hint that the subscriber puts
+	// into the context of a sync (without a hint: advertisements): a read
+	// that comes without the hint does not find an entry block
+	if w.SplitByHint {
+		inner := s.LS.StorageReadOpener
+		s.LS.StorageReadOpener = func(lc ipld.LinkContext, l ipld.Link) (io.Reader, error) {
+			hint := ""
+			if lc.Ctx != nil {
+				hint, _ = ipnisync.CidSchemaFromCtx(lc.Ctx)
+			}
+			if hint == "" {
+				hint = ipnisync.CidSchemaAdvertisement
+			}
+			name := w.CidName(l.(cidlink.Link).Cid)
+			kind := ipnisync.CidSchemaAdvertisement
+			if strings.Contains(name, ".e") || strings.Contains(name, "tree") {
+				kind = ipnisync.CidSchemaEntryChunk
+			}
+			if kind != hint {
+				w.R.Probe("read-in-the-other-table")
+				return nil, ipld.ErrNotExists{}
+			}
+			return inner(lc, l)
+		}
+	}
+	hook := dagsync.BlockHookFunc(s.blockHook)
+	if w.GeneralHook {
+		hook = dagsync.MakeGeneralBlockHook(s.prevAd)
+	}
+	all := append([]dagsync.Option{dagsync.BlockHook(hook)}, opts...)
 	s.Sub = must(dagsync.NewSubscriber(h, s.LS, all...))
 	return s
 }
@@ -383,6 +428,33 @@ func (w *World) NewSubscriberOn(h host.Host, opts ...dagsync.Option) *SubNode {
 // behaviour as the subscriber-wide one, its calls are tagged "scoped".
 func (s *SubNode) ScopedHook(p peer.ID, c cid.Cid, act dagsync.SegmentSyncActions) {
 	s.hookTagged(p, c, act, "scoped")
+}
+
+// captureActions records what a hook says, for prevAd.
+type captureActions struct {
+	next cid.Cid
+	err  error
+}
+
+func (a *captureActions) SetNextSyncCid(c cid.Cid) { a.next = c }
+func (a *captureActions) FailSync(err error)       { a.err = err }
+
+// prevAd is the function handed to dagsync.MakeGeneralBlockHook: the same
+// behaviour as the subscriber's own hook (recording, parking, failures),
+// expressed as "predecessor or error".
+func (s *SubNode) prevAd(c cid.Cid) (cid.Cid, error) {
+	var p peer.ID
+	for _, pub := range s.W.Pubs {
+		if pub.AdIndex(c) >= 0 {
+			p = pub.Ident.ID
+		}
+	}
+	act := &captureActions{}
+	s.hookTagged(p, c, act, "")
+	if act.err != nil {
+		return cid.Undef, act.err
+	}
+	return act.next, nil
 }
 
 func (s *SubNode) blockHook(p peer.ID, c cid.Cid, act dagsync.SegmentSyncActions) {
